@@ -244,6 +244,7 @@ type vScenario struct {
 	nextFile int
 	convNames []string
 	orphanFlag map[string]bool
+	viewConverted bool
 }
 
 func (s *vScenario) fid(name string) string {
@@ -356,6 +357,7 @@ func (s *vScenario) project() (*vState, error) {
 		st.During["upd"] = vBits(mgr.updatedStreamsDuringTaggingJob)
 		st.During["res"] = vBits(mgr.resetStreamsDuringTaggingJob)
 		st.During["add"] = vBits(mgr.addedStreamsDuringTaggingJob)
+		st.During["inv"] = vBits(mgr.invalidatedStreamsDuringConverterJob)
 		st.Unmerge = mgr.nUnmergeableIndexes
 		for n, bm := range mgr.streamsToConvert {
 			st.ToConv[n] = vBits(*bm)
@@ -605,8 +607,14 @@ func (s *vScenario) observe(st *vState) *vObs {
 				}
 			}
 			ids := []int{}
+			// evaluate the definition text from scratch (absolute times are relative to the parse's reference time)
+			fresh, perr := query.Parse(st.Tags[n].Def.query())
+			if perr != nil {
+				o.Err = fmt.Sprintf("truth(%s): parse: %v", n, perr)
+				return o
+			}
 			if len(v.indexes) != 0 {
-				res, _, _, err := index.SearchStreams(ctx, v.indexes, nil, time.Time{}, td.Conditions, nil,
+				res, _, _, err := index.SearchStreams(ctx, v.indexes, nil, fresh.ReferenceTime, fresh.Conditions, nil,
 					[]query.Sorting{{Key: query.SortingKeyID, Dir: query.SortingDirAscending}}, 0, 0, truthTD, v.converters, false)
 				if err != nil {
 					o.Err = fmt.Sprintf("truth(%s): %v", n, err)
